@@ -1252,12 +1252,14 @@ int32 matrixRegisterSession(ssl_t *ssl)
     }
 
 /*
-    Register the incoming masterSecret and cipher, which could still be null,
-    depending on when we're called.
+    Reserve the entry. It is not resumable (cipher NULL, see
+    matrixResumeSession) until the handshake that creates the session has
+    completed: matrixUpdateSession records the master secret and cipher then.
+    We are called while ServerHello is written - no master secret exists yet
+    and the peer has proven nothing.
  */
-    Memcpy(g_sessionTable[i].masterSecret, ssl->sec.masterSecret,
-        SSL_HS_MASTER_SIZE);
-    g_sessionTable[i].cipher = ssl->cipher;
+    Memset(g_sessionTable[i].masterSecret, 0x0, SSL_HS_MASTER_SIZE);
+    g_sessionTable[i].cipher = NULL;
     g_sessionTable[i].inUse += 1;
 /*
     The sessionId is the current serverRandom value, with the first 4 bytes
@@ -1454,6 +1456,13 @@ int32 matrixUpdateSession(ssl_t *ssl)
         g_sessionTable[i].cipher = NULL;
         psUnlockMutex(&g_sessionTableLock);
         return PS_FAILURE;
+    }
+    if (ssl->hsState != SSL_HS_DONE)
+    {
+        /* The handshake has not completed (peer Finished not verified yet):
+           a session that was never established must not become resumable */
+        psUnlockMutex(&g_sessionTableLock);
+        return PS_SUCCESS;
     }
     Memcpy(g_sessionTable[i].masterSecret, ssl->sec.masterSecret,
         SSL_HS_MASTER_SIZE);
